@@ -108,6 +108,7 @@ let register_c06 reg =
     | [tab; bodies] -> let (es, fs) = worker_obs (tab_of tab) (L.map acts_of (lv bodies)) in
       "ok [" ^ show_zlist es ^ "," ^ show_bools fs ^ "]"
     | _ -> failwith "worker_obs: arity");
+  reg "cleanups_once_ok" (function [a; b; c] -> show_bool (cleanups_once_ok (zlist a) (zlist b) (zv c)) | _ -> failwith "arity");
   reg "measured_ok" (function [a; b; c] -> show_bool (measured_ok (zv a) (zv b) (zv c)) | _ -> failwith "arity");
   reg "run_obs" (function
     | [tab; setup] -> let ((es, it), f) = run_obs (tab_of tab) (acts_of setup) in
